@@ -4,11 +4,16 @@ patch="$1"; shift
 scratch=${TRY_SCRATCH:-/tmp/verif-try-repo}   # a second concurrent user sets TRY_SCRATCH (and gets its own logs / evidence dir)
 tag=$(basename "$scratch")
 cd /verif
+exec 9> /tmp/verif-try.lock          # concurrent users (sharded matrix) serialise their worktree bookkeeping
+flock 9
 git -C /repo worktree remove --force "$scratch" 2>/dev/null; rm -rf "$scratch"; git -C /repo worktree prune
 git -C /repo worktree add -q --detach "$scratch" HEAD || exit 1
+flock -u 9
 git -C "$scratch" apply "$patch" || { echo "PATCH-DOES-NOT-APPLY"; git -C /repo worktree remove --force "$scratch"; exit 1; }
 for p in "$@"; do
   VERIF_EVIDENCE_DIR=/verif/build/try-evidence-$tag VERIF_REPO="$scratch" ./check $p > /verif/build/try-$tag-$p.log 2>&1; rc=$?
   echo "$p rc=$rc $(grep -m2 -E 'VIOLATION|INCONCLUSIVE|^OK|^  ' /verif/build/try-$tag-$p.log | cut -c1-330 | tr '\n' '|')"
 done
+flock 9
 git -C /repo worktree remove --force "$scratch"
+flock -u 9
